@@ -229,7 +229,8 @@ Lemma hprep_spec h zs F q p dir :
   let '(h1, q1) := hprep h p q dir in
   repz h1 zs q1 /\ rep h1 q1 (prep node kn F) /\ Hyg 0 zs (prep node kn F) /\
   (F <> BL -> hget h1 node = mktn 0 0 true kn /\ q1 = q /\ Hyg node zs (prep node kn F)) /\
-  (q1 = node <-> F = BL).
+  (q1 = node <-> F = BL) /\
+  (forall i, ~ In i (bids (plug zs F)) -> hget h1 i = hget h i).
 Proof.
   intros Hz Hr Hy Hn Hnode Hp Hne. unfold hprep.
   destruct (hyg_focus _ _ _ Hy) as (NF & DF & PF & PZ).
@@ -248,7 +249,8 @@ Proof.
       * apply Forall_forall. intros i Hi. apply in_app_or in Hi. destruct Hi as [Hi|[<-|Hi]]; [|split; lia|].
         -- destruct (Y2 i ltac:(apply in_or_app; left; exact Hi)). split; lia.
         -- destruct (Y2 i ltac:(apply in_or_app; right; exact Hi)). split; lia.
-    + split; [intros Hc; exfalso; apply Hc; reflexivity|]. split; reflexivity.
+    + split; [intros Hc; exfalso; apply Hc; reflexivity|]. split; [split; reflexivity|].
+      intros i Hi. unfold h1. apply hget_set_child_other. intros ->. apply Hi. apply in_plug_ids. left. apply in_zids_cons. right. left. reflexivity.
   - (* q is a node *)
     pose proof Hr as Hr0. cbn [rep] in Hr. destruct Hr as (-> & Hq0 & _ & _ & Hl & Hrr).
     destruct (Z.eqb_spec q' 0); [contradiction|].
@@ -266,10 +268,10 @@ Proof.
         - intros i Hi. apply R2. intros Hc. apply (DF i Hc Hi).
         - apply R2. intros Hc. destruct (PF _ Hc). unfold HEAD in *. lia. }
       split; [exact R1|]. split; [apply hyg_weaken with (nd := node); apply (hyg_congr _ _ _ _ Eids); exact Hy|].
-      split; [|split; [intros Hc; contradiction|discriminate]].
+      split; [|split; [split; [intros Hc; contradiction|discriminate]|intros i Hi; apply R2; intros Hc; apply Hi; apply in_plug_ids; right; exact Hc]].
       intros _. split; [rewrite R2 by exact Hnotin; exact Hnode|]. split; [reflexivity|apply (hyg_congr _ _ _ _ Eids); exact Hy].
     + split; [exact Hz|]. split; [exact Hr0|]. split; [apply hyg_weaken with (nd := node); exact Hy|].
-      split; [|split; [intros Hc; contradiction|discriminate]].
+      split; [|split; [split; [intros Hc; contradiction|discriminate]|intros; reflexivity]].
       intros _. split; [exact Hnode|]. split; [reflexivity|exact Hy].
 Qed.
 
@@ -474,19 +476,26 @@ Theorem insert_loop_sim : forall fuel m zs F h g p t q dir last,
   AInv node kn m zs F -> repz h zs q -> rep h q F -> Hyg node zs F -> 1 < node -> hget h node = mktn 0 0 true kn ->
   vars_ok m zs g p t dir last -> (zs = [] -> F <> BL) -> (pot node kn m F < fuel)%nat ->
   exists R, zloop node kn fuel m zs F = Some R /\
-    rep (insert_loop fuel h node g p t q dir last) (child (insert_loop fuel h node g p t q dir last) HEAD true) R.
+    rep (insert_loop fuel h node g p t q dir last) (child (insert_loop fuel h node g p t q dir last) HEAD true) R /\
+    (forall i, ~ In i (bids (plug zs F)) -> i <> HEAD -> i <> node -> hget (insert_loop fuel h node g p t q dir last) i = hget h i).
 Proof.
   induction fuel as [|f IH]; intros m zs F h g p t q dir last A Hz Hr Hy Hn Hnode V Hne Hpot; [lia|].
   rewrite insert_loop_S. cbn [zloop].
   pose proof (hprep_spec h zs F q p dir Hz Hr Hy Hn Hnode (proj1 V) Hne) as HP.
-  destruct (hprep h p q dir) as [h1 q1]. destruct HP as (Hz1 & Hr1 & Hy1 & HF & Hq1).
+  destruct (hprep h p q dir) as [h1 q1]. destruct HP as (Hz1 & Hr1 & Hy1 & HF & Hq1 & Hfr0).
   pose proof (hrot_spec h1 zs (prep node kn F) q1 g p t dir last Hz1 Hr1 (prep_not_leaf node kn F) Hy1 (proj1 V)
                (norot_cond m zs F A) (vars_for_rotation m zs F g p t dir last A V)) as HR.
   cbn zeta in HR. set (h2 := hrot h1 g p t q1 last) in *.
   destruct HR as (Hz2 & Hr2 & Hy2 & Hfr).
+  assert (Hfr2 : forall i, ~ In i (bids (plug zs F)) -> i <> HEAD -> i <> node -> hget h2 i = hget h i).
+  { intros i Hi Hh Hin. rewrite Hfr; [apply Hfr0; exact Hi| |exact Hh].
+    intros Hc. apply in_plug_ids in Hc. destruct Hc as [Hc|Hc]; [apply Hi; apply in_plug_ids; left; exact Hc|].
+    destruct F as [|xl xi xc xk xr].
+    - change (prep node kn BL) with (BN BL node true kn BL) in Hc. cbn in Hc. destruct Hc as [Hc|[]]. congruence.
+    - destruct (prep_keys node kn (BN xl xi xc xk xr) ltac:(discriminate)) as [_ Ei]. rewrite Ei in Hc. apply Hi. apply in_plug_ids. right. exact Hc. }
   destruct F as [|fl fi fc fk fr].
   - assert (E : (q1 =? node) = true) by (apply Z.eqb_eq; apply Hq1; reflexivity). rewrite E.
-    unfold zstep. eexists. split; [reflexivity|]. cbv zeta. apply (rep_plug h2 _ q1); assumption.
+    unfold zstep. eexists. split; [reflexivity|]. cbv zeta. split; [apply (rep_plug h2 _ q1); assumption|exact Hfr2].
   - destruct (HF ltac:(discriminate)) as (Hnode1 & Eq1 & Hyn).
     assert (Hqn : (q1 =? node) = false).
     { apply Z.eqb_neq. intros Hc. apply Hq1 in Hc. discriminate. }
@@ -516,7 +525,7 @@ Proof.
     destruct (zstep_next node kn _ _ _ _ _ _ A Es) as [Hplug A'].
     pose proof (zstep_pot node kn _ _ _ _ _ _ A Es) as Hp'.
     set (fq := mkf (k <? kn) qq c k (if k <? kn then x else y)) in *.
-    apply (IH (next_mode m r) (fq :: Z1) (if k <? kn then y else x) h2 p qq (if g =? 0 then t else g) (child h2 qq (k <? kn)) (k <? kn) dir).
+    destruct (IH (next_mode m r) (fq :: Z1) (if k <? kn then y else x) h2 p qq (if g =? 0 then t else g) (child h2 qq (k <? kn)) (k <? kn) dir) as (R & HR & Hrep & Hfr3).
     + exact A'.
     + cbn [repz fq f_id f_red f_key f_dir f_sib]. split; [exact Hq0|]. split; [exact Hc|]. split; [exact Hk|]. split; [reflexivity|].
       split; [destruct (k <? kn); assumption|exact Hz2].
@@ -529,6 +538,9 @@ Proof.
       apply VN. intros i Hi. destruct (hyg_focus _ _ _ Hy) as (_ & _ & _ & PZ). destruct (PZ i Hi). assumption.
     + discriminate.
     + lia.
+    + exists R. split; [exact HR|]. split; [exact Hrep|]. intros i Hi Hh Hin. rewrite Hfr3; [apply Hfr2; assumption| |exact Hh|exact Hin].
+      intros Hcc. apply Hi. unfold fq in Hcc. rewrite descend_plug, Hids in Hcc.
+      destruct (prep_keys node kn F0 ltac:(discriminate)) as [_ Ei]. rewrite (bids_plug_congr zs _ _ Ei) in Hcc. exact Hcc.
 Qed.
 
 (* ------------------------------------------------------------------ ArenaTree::insert as a whole *)
@@ -539,7 +551,8 @@ Theorem tree_insert_refines_f fuel t T b :
   exists R, rep (heap t') (root t') R /\ bred R = false /\ (bbh R = Some b \/ bbh R = Some (b + 1)) /\
     (sortedb (bkeys T) = true -> ~ In kn (bkeys T) ->
        sortedb (bkeys R) = true /\ exists L Rr, bkeys T = L ++ Rr /\ bkeys R = L ++ kn :: Rr) /\
-    (exists L Rr, bids T = L ++ Rr /\ bids R = L ++ node :: Rr).
+    (exists L Rr, bids T = L ++ Rr /\ bids R = L ++ node :: Rr) /\
+    (forall i, ~ In i (bids T) -> i <> HEAD -> i <> node -> hget (heap t') i = hget (heap t) i).
 Proof.
   intros Hr Hnd Hids Hn Hb Hred Hh. cbn zeta. unfold tree_insert_f.
   set (h0 := hset (heap t) node (mktn 0 0 false kn)).
@@ -551,7 +564,7 @@ Proof.
       destruct (Z.eqb_spec node 0); [lia|]. repeat split; auto; lia.
     + split; [reflexivity|]. cbn in Hb. inversion Hb; subst. split; [right; reflexivity|]. split.
       * intros _ _. split; [reflexivity|]. exists [], []. split; reflexivity.
-      * exists [], []. split; reflexivity.
+      * split; [exists [], []; split; reflexivity|]. intros i _ _ Hi. unfold h0. apply hget_hset_other. congruence.
   - assert (HT : T <> BL) by (intros ->; apply E0; exact Hr).
     set (h1 := hset h0 HEAD (mktn 0 (root t) false 0)).
     set (h2 := set_red h1 node true).
@@ -571,12 +584,19 @@ Proof.
     pose proof (AInv_init node kn T b Hb Hred) as A.
     assert (V : vars_ok NoRot2 [] 0 0 HEAD false false) by (split; [reflexivity|left; repeat split]).
     pose proof (pot_init node kn T HT) as Hp.
-    destruct (insert_loop_sim fuel NoRot2 [] T h2 0 0 HEAD (root t) false false A Hz Hr2 Hy Hn Hnode V (fun _ => HT) ltac:(lia)) as (R0 & HR0 & Hrep).
+    destruct (insert_loop_sim fuel NoRot2 [] T h2 0 0 HEAD (root t) false false A Hz Hr2 Hy Hn Hnode V (fun _ => HT) ltac:(lia)) as (R0 & HR0 & Hrep & Hfr).
     destruct (zinsert_correct node kn fuel T b Hb Hred HT Hh) as (R & HR & Hbr & Hbb & Hk & Hi).
     unfold zinsert in HR. rewrite HR0 in HR. inversion HR; subst R. clear HR.
     set (h3 := insert_loop fuel h2 node 0 0 HEAD (root t) false false) in *.
     set (r := child h3 HEAD true) in *. cbn [heap root].
-    exists (blacken R0). split; [|split; [exact Hbr|split; [exact Hbb|split; [exact Hk|exact Hi]]]].
+    exists (blacken R0). split; [|split; [exact Hbr|split; [exact Hbb|split; [exact Hk|split; [exact Hi|]]]]].
+    2:{ intros i Hni Hih Hin. destruct Hi as (L & Rr & E1 & E2). destruct (blacken_keys R0) as [_ Eb]. rewrite Eb in E2.
+        assert (Hir : i <> r).
+        { rewrite (rep_bid _ _ _ Hrep). destruct R0 as [|l0 i0 c0 k0 r0]; [destruct L; discriminate|]. cbn [bid].
+          assert (Hin0 : In i0 (L ++ node :: Rr)) by (rewrite <- E2; cbn [bids]; apply in_or_app; right; left; reflexivity).
+          intros ->. apply in_app_or in Hin0. destruct Hin0 as [H0|[H0|H0]]; [apply Hni; rewrite E1; apply in_or_app; left; exact H0|congruence|apply Hni; rewrite E1; apply in_or_app; right; exact H0]. }
+        rewrite hget_set_red_other by exact Hir. fold h3. rewrite (Hfr i Hni Hih Hin).
+        unfold h2. rewrite hget_set_red_other by exact Hin. unfold h1. rewrite hget_hset_other by congruence. unfold h0. apply hget_hset_other. congruence. }
     destruct Hi as (L & Rr & E1 & E2). destruct (blacken_keys R0) as [_ Eb]. rewrite Eb in E2.
     assert (NR : NoDup (bids R0)).
     { rewrite E2. apply nodup_insert_mid; [rewrite <- E1; exact Hnd|]. rewrite <- E1. intros Hc. destruct (Hids _ Hc) as [_ Hc']. apply Hc'. reflexivity. }
@@ -599,7 +619,8 @@ Theorem tree_insert_refines t T b :
   exists R, rep (heap t') (root t') R /\ bred R = false /\ (bbh R = Some b \/ bbh R = Some (b + 1)) /\
     (sortedb (bkeys T) = true -> ~ In kn (bkeys T) ->
        sortedb (bkeys R) = true /\ exists L Rr, bkeys T = L ++ Rr /\ bkeys R = L ++ kn :: Rr) /\
-    (exists L Rr, bids T = L ++ Rr /\ bids R = L ++ node :: Rr).
+    (exists L Rr, bids T = L ++ Rr /\ bids R = L ++ node :: Rr) /\
+    (forall i, ~ In i (bids T) -> i <> HEAD -> i <> node -> hget (heap t') i = hget (heap t) i).
 Proof. exact (tree_insert_refines_f 200 t T b). Qed.
 
 
@@ -635,7 +656,7 @@ Theorem tree_insert_unbounded t T b :
     NoDup (bids R) /\ (forall i, In i (bids R) <-> i = node \/ In i (bids T)).
 Proof.
   intros Hr Hnd Hids Hn Hb Hred Hs Hnin Hh. cbn zeta.
-  destruct (tree_insert_refines t T b Hr Hnd Hids Hn Hb Hred ltac:(lia)) as (R & HR & Hbr & Hbb & Hk & Hi). cbn zeta in HR.
+  destruct (tree_insert_refines t T b Hr Hnd Hids Hn Hb Hred ltac:(lia)) as (R & HR & Hbr & Hbb & Hk & Hi & _). cbn zeta in HR.
   destruct (Hk Hs Hnin) as (HsR & L & Rr & E1 & E2). destruct Hi as (L' & Rr' & I1 & I2).
   assert (Hb' : exists b', bbh R = Some b' /\ b' <= b + 1) by (destruct Hbb as [H|H]; eexists; split; try exact H; lia).
   destruct Hb' as (b' & Hb' & Hle).
@@ -670,10 +691,12 @@ Theorem tree_insert_any_height fuel t T b :
     (forall k, lookup R k <> 0 <-> k = kn \/ In k (bkeys T)) /\
     (forall f', (bheight R < f')%nat ->
        (forall k, get_loop f' (heap t') (root t') k = lookup R k) /\ inorder f' (heap t') (root t') = bflat R) /\
-    NoDup (bids R) /\ (forall i, In i (bids R) <-> i = node \/ In i (bids T)).
+    NoDup (bids R) /\ (forall i, In i (bids R) <-> i = node \/ In i (bids T)) /\
+    (* nothing else in the heap is touched *)
+    (forall i, ~ In i (bids T) -> i <> HEAD -> i <> node -> hget (heap t') i = hget (heap t) i).
 Proof.
   intros Hr Hnd Hids Hn Hb Hred Hs Hnin Hh. cbn zeta.
-  destruct (tree_insert_refines_f fuel t T b Hr Hnd Hids Hn Hb Hred Hh) as (R & HR & Hbr & Hbb & Hk & Hi). cbn zeta in HR.
+  destruct (tree_insert_refines_f fuel t T b Hr Hnd Hids Hn Hb Hred Hh) as (R & HR & Hbr & Hbb & Hk & Hi & Hframe). cbn zeta in HR, Hframe.
   destruct (Hk Hs Hnin) as (HsR & L & Rr & E1 & E2). destruct Hi as (L' & Rr' & I1 & I2).
   assert (Hb' : exists b', bbh R = Some b') by (destruct Hbb as [H|H]; eauto). destruct Hb' as (b' & Hb').
   destruct (bbh_height R b' Hb') as [_ HhR]. rewrite Hbr in HhR.
@@ -686,6 +709,7 @@ Proof.
   { intros k. rewrite (lookup_member R k HsR Hnz), E1, E2, !in_app_iff. cbn [In]. intuition. }
   split.
   { intros f' Hf'. split; [intros k; apply get_loop_rep; assumption|apply inorder_rep; assumption]. }
-  split; [rewrite I2; apply nodup_insert_mid; [rewrite <- I1; exact Hnd|]; rewrite <- I1; intros Hc; destruct (Hids _ Hc) as [_ Hc']; apply Hc'; reflexivity|exact Hin].
+  split; [rewrite I2; apply nodup_insert_mid; [rewrite <- I1; exact Hnd|]; rewrite <- I1; intros Hc; destruct (Hids _ Hc) as [_ Hc']; apply Hc'; reflexivity|].
+  split; [exact Hin|exact Hframe].
 Qed.
 End Refine.
